@@ -1271,6 +1271,10 @@ SCOPE = ("partial. PROVED (Coq, axiom-free): (a) permutation invariance of every
          "(a') a second generated inventory of in-memory state that outlives a transaction (keeper fields / package variables of map or sync.Map type, "
          "identified by the hash of the statements writing them) with a hand classification and totality lemma; poolmanager's pool-route cache is modelled: a committed "
          "SetPoolRoute invalidates (proved), a rolled-back pool creation leaves a stale entry and a restarted node answers with different gas (REFUTED, finding F19-16); "
+         "(b') x/lockup InitGenesis as written (InitializeAllLocks + InitializeAllSyntheticLocks rebuilding the accumulation store; the duration expressions keying the map read / "
+         "write / literal are regenerated from lock.go on every run and checked by a shape lemma): after import(export s), for every native or synthetic denom and every "
+         "duration d, accumulation(>= d) = sum over the exported (synthetic) locks with duration >= d; the running chain's incremental bookkeeping does not keep that "
+         "equation (REFUTED, finding F19-17); the model import is evaluated on the real exported lockup genesis against the values the real re-imported chain answers; "
          "(b) export/import round trip and equality of all later results for TWO modelled module states: x/epochs (C17's timer state; equal apart from "
          "CurrentEpochStartHeight, which the code overwrites - the exact round trip is REFUTED, finding F19-2) and a generic keyed-records + last-id counter + rebuilt "
          "derived total module standing for lockup / incentives / twap-like stores. "
